@@ -148,26 +148,6 @@ theorem Mated.congr {b b' : Board} (h : vis b = vis b') (hm : Mated b) : Mated b
   rw [← isValid_congr (make_congr h m)]
   exact hm.1 m (by rw [genPseudo_congr h]; exact hmem)
 
-/-- `ms` is a legal line from `b` that ends in a position whose mover is checkmated; `v` is the value of that for the
-mover of `b`: `-(winScore - fullmove of the final position)`, negated once per ply -/
-def MateLine : Board → List Move → Int → Prop
-  | b, [], v => Mated b ∧ v = -(Gen.winScore - (b.fullmove : Int))
-  | b, m :: ms, v => m ∈ genPseudo b ∧ isValid (make b m) = true ∧ MateLine (make b m) ms (-v)
-
-theorem MateLine.congr {b b' : Board} (h : vis b = vis b') (l : List Move) (v : Int) (hl : MateLine b l v) :
-    MateLine b' l v := by
-  induction l generalizing b b' v with
-  | nil => exact ⟨hl.1.congr h, by rw [← fullmove_congr h]; exact hl.2⟩
-  | cons m ms ih =>
-    obtain ⟨h1, h2, h3⟩ := hl
-    exact ⟨by rw [← genPseudo_congr h]; exact h1, by rw [← isValid_congr (make_congr h m)]; exact h2,
-      ih (make_congr h m) _ h3⟩
-
-theorem MateLine.legal {b : Board} {l : List Move} {v : Int} (h : MateLine b l v) : LegalLine b l := by
-  induction l generalizing b v with
-  | nil => trivial
-  | cons m ms ih => exact ⟨h.1, h.2.1, ih h.2.2⟩
-
 theorem wf_turn_fm {b : Board} (h : wf b = true) : b.turn ≤ 1 ∧ 1 ≤ b.fullmove := by
   simp only [WF.wf, Bool.and_eq_true, decide_eq_true_eq] at h
   omega
@@ -194,6 +174,28 @@ theorem FmOK.child {k : Nat} {b : Board} (hwf : wf b = true) (hf : FmOK (k + 1) 
   unfold FmOK at *
   rw [make_fullmove]
   omega
+
+/-- `ms` is a legal line from `b` through well-formed boards that ends in a position whose mover is checkmated (full-move
+number below `maxFullMoves`); `v` is the value of that for the mover of `b`: `-(winScore - fullmove of the final
+position)`, negated once per ply -/
+def MateLine : Board → List Move → Int → Prop
+  | b, [], v => wf b = true ∧ FmOK 0 b ∧ Mated b ∧ v = -(Gen.winScore - (b.fullmove : Int))
+  | b, m :: ms, v => wf b = true ∧ m ∈ genPseudo b ∧ isValid (make b m) = true ∧ MateLine (make b m) ms (-v)
+
+theorem MateLine.congr {b b' : Board} (h : vis b = vis b') (l : List Move) (v : Int) (hl : MateLine b l v) :
+    MateLine b' l v := by
+  induction l generalizing b b' v with
+  | nil =>
+    exact ⟨by rw [← wf_congr h]; exact hl.1, hl.2.1.congr h, hl.2.2.1.congr h, by rw [← fullmove_congr h]; exact hl.2.2.2⟩
+  | cons m ms ih =>
+    obtain ⟨h0, h1, h2, h3⟩ := hl
+    exact ⟨by rw [← wf_congr h]; exact h0, by rw [← genPseudo_congr h]; exact h1,
+      by rw [← isValid_congr (make_congr h m)]; exact h2, ih (make_congr h m) _ h3⟩
+
+theorem MateLine.legal {b : Board} {l : List Move} {v : Int} (h : MateLine b l v) : LegalLine b l := by
+  induction l generalizing b v with
+  | nil => trivial
+  | cons m ms ih => exact ⟨h.2.1, h.2.2.1, ih h.2.2.2⟩
 
 /-- the value of a position without legal move -/
 theorem term_leaf {b : Board} (hwf : wf b = true) (hfm : FmOK 0 b) :
@@ -278,6 +280,7 @@ structure AccOK (b0 : Board) (a0 b0w alpha : Int) (acc : LoopAcc) : Prop where
   valAlpha : Val acc.alpha
   alphaSrc : acc.alpha = alpha ∨ acc.alpha ≤ acc.bestValue
   ge : -16777216 ≤ acc.bestValue
+  gt : acc.bestMove ≠ none → -16777216 < acc.bestValue
   mate : Big acc.bestValue → Outside acc.bestValue a0 b0w → MateLine b0 (accPv acc) acc.bestValue
 
 theorem accOK_acc0 (b0 : Board) (a0 b0w alpha : Int) (hv : Val alpha) : AccOK b0 a0 b0w alpha (acc0 alpha) where
@@ -285,6 +288,7 @@ theorem accOK_acc0 (b0 : Board) (a0 b0w alpha : Int) (hv : Val alpha) : AccOK b0
   valAlpha := hv
   alphaSrc := Or.inl rfl
   ge := by show -16777216 ≤ lossScore; rw [SpecSearch.lossScore_val]; omega
+  gt := fun h => absurd rfl h
   mate := by
     intro _ ho
     exact absurd (show lossScore = -16777216 from SpecSearch.lossScore_val) ho.2.2.2
@@ -312,7 +316,7 @@ theorem accUpdate_ok {b0 : Board} {a0 b0w alpha : Int} {acc : LoopAcc} (h : AccO
     AccOK b0 a0 b0w alpha (accUpdate acc m c) := by
   rcases accUpdate_cases acc m c with ⟨hgt, he⟩ | ⟨hle, he⟩
   · rw [he]
-    refine ⟨hcv.neg, h.valAlpha.max hcv.neg, ?_, ?_, ?_⟩
+    refine ⟨hcv.neg, h.valAlpha.max hcv.neg, ?_, ?_, ?_, ?_⟩
     · show max acc.alpha (-c.value) = alpha ∨ max acc.alpha (-c.value) ≤ -c.value
       rcases h.alphaSrc with h1 | h1
       · rcases Int.le_total acc.alpha (-c.value) with h2 | h2
@@ -323,12 +327,15 @@ theorem accUpdate_ok {b0 : Board} {a0 b0w alpha : Int} {acc : LoopAcc} (h : AccO
         rw [Int.max_eq_right this]; exact Int.le_refl _
     · show -16777216 ≤ -c.value
       have := h.ge; omega
+    · intro _
+      show -16777216 < -c.value
+      have := h.ge; omega
     · intro hB ho
       show MateLine b0 (VM.mk (-c.value) (some m) (some c)).pv (-c.value)
       rw [VM.pv_some_some]
       exact hmate hgt hB ho
   · rw [he]
-    refine ⟨h.valBest, h.valAlpha.max h.valBest, ?_, h.ge, h.mate⟩
+    refine ⟨h.valBest, h.valAlpha.max h.valBest, ?_, h.ge, h.gt, h.mate⟩
     show max acc.alpha acc.bestValue = alpha ∨ max acc.alpha acc.bestValue ≤ acc.bestValue
     rcases h.alphaSrc with h1 | h1
     · rcases Int.le_total acc.alpha acc.bestValue with h2 | h2
@@ -348,7 +355,9 @@ def NMate (fuel : Nat) : Prop :=
     TTSmall s.tt → Val a → Val b →
     Val (negamax fuel s ply maxPly a b isPv h ph).1.value ∧ TTSmall (negamax fuel s ply maxPly a b isPv h ph).2.tt ∧
     (Big (negamax fuel s ply maxPly a b isPv h ph).1.value → Outside (negamax fuel s ply maxPly a b isPv h ph).1.value a b →
-      MateRes s.board ply (negamax fuel s ply maxPly a b isPv h ph).1)
+      MateRes s.board ply (negamax fuel s ply maxPly a b isPv h ph).1) ∧
+    ((∀ e, s.tt.get? h = some e → e.depth < maxPly - ply) → ply ≠ maxPly →
+      (negamax fuel s ply maxPly a b isPv h ph).1.mv ≠ none → -16777216 < (negamax fuel s ply maxPly a b isPv h ph).1.value)
 
 theorem nLoop_mate {fuel : Nat} (hn : NMate fuel) (b0 : Board) (hinv : Inv (fuel + 1) b0) (hfm : FmOK (fuel + 1) b0)
     (ply maxPly : Nat) (a0 b0w alpha beta : Int) (hα : alpha = a0 ∨ Small alpha) (hβ : beta = b0w ∨ Small beta)
@@ -397,7 +406,7 @@ theorem nLoop_mate {fuel : Nat} (hn : NMate fuel) (b0 : Board) (hinv : Inv (fuel
         (childPvOf isPv pvMove m) (h ^^^ (Zobrist.xorOf m.f).1) (ph ^^^ (Zobrist.xorOf m.f).2) hi1
       generalize negamax fuel { s with board := make s.board m } (ply + 1) maxPly (-beta) (-acc.alpha)
         (childPvOf isPv pvMove m) (h ^^^ (Zobrist.xorOf m.f).1) (ph ^^^ (Zobrist.xorOf m.f).2) = r at hchild hr ⊢
-      obtain ⟨hcv, htt', hcm⟩ := hchild
+      obtain ⟨hcv, htt', hcm, -⟩ := hchild
       have hb := back hwf hg (hr.trans hmk)
       have hacc' : AccOK b0 a0 b0w alpha (accUpdate acc m r.1) := by
         refine accUpdate_ok hacc m r.1 hcv ?_
@@ -405,7 +414,7 @@ theorem nLoop_mate {fuel : Nat} (hn : NMate fuel) (b0 : Board) (hinv : Inv (fuel
         have hout := child_outside hα hβ hacc.alphaSrc hgt hB ho
         rcases hcm hB.of_neg hout with ⟨h0, -⟩ | hml
         · omega
-        · refine ⟨hm, hv', ?_⟩
+        · refine ⟨hwf, hm, hv', ?_⟩
           rw [Int.neg_neg]
           exact hml.congr hmk _ _
       have hls := accUpdate_legalSeen acc m r.1
@@ -420,15 +429,14 @@ theorem nLoop_mate {fuel : Nat} (hn : NMate fuel) (b0 : Board) (hinv : Inv (fuel
           rw [i3 hls] at h1
           cases h1
 
-theorem evalFor_congr {b b' : Board} (h : vis b = vis b') (c : Nat) (l : Bool) : evalFor b c l = evalFor b' c l := by
+theorem evalFor_congr_vis {b b' : Board} (h : vis b = vis b') (c : Nat) (l : Bool) : evalFor b c l = evalFor b' c l := by
   unfold evalFor
   rw [evaluate_congr h]
 
 theorem rootBuffer_pos (s : St) {ply : Nat} (h : ply ≠ 0) : rootBuffer s ply = genPseudo s.board := by
   unfold rootBuffer
   have : (ply == 0) = false := by simpa using h
-  rw [this]
-  rfl
+  rw [this, Bool.false_and, if_neg Bool.false_ne_true]
 
 theorem finish_mate (b0 : Board) (hwf : wf b0 = true) (hfm : FmOK 0 b0) (ply : Nat) (a0 b0w alpha beta : Int) (hash : UInt64)
     (rem : Nat) (r : LoopAcc × Bool × St) (hs : vis r.2.2.board = vis b0) (hacc : AccOK b0 a0 b0w alpha r.1)
@@ -436,34 +444,35 @@ theorem finish_mate (b0 : Board) (hwf : wf b0 = true) (hfm : FmOK 0 b0) (ply : N
     (hnone : r.1.legalSeen = false → r.2.1 = false → ply ≠ 0 → ∀ m ∈ genPseudo b0, isValid (make b0 m) = false) :
     Val (finish b0.turn a0 beta hash rem r).1.value ∧ TTSmall (finish b0.turn a0 beta hash rem r).2.tt ∧
     (Big (finish b0.turn a0 beta hash rem r).1.value → Outside (finish b0.turn a0 beta hash rem r).1.value a0 b0w →
-      MateRes b0 ply (finish b0.turn a0 beta hash rem r).1) := by
+      MateRes b0 ply (finish b0.turn a0 beta hash rem r).1) ∧
+    ((finish b0.turn a0 beta hash rem r).1.mv ≠ none → -16777216 < (finish b0.turn a0 beta hash rem r).1.value) := by
   obtain ⟨acc, ab, s⟩ := r
   unfold finish
   simp only
   split
-  · exact ⟨Or.inl small_zero, htt, fun hB => absurd hB small_zero.not_big⟩
+  · exact ⟨Or.inl small_zero, htt, fun hB => absurd hB small_zero.not_big, fun hne => absurd rfl hne⟩
   · rename_i hab
     split
     · rename_i hls
       have hls' : acc.legalSeen = false := by simpa using hls
       have hab' : ab = false := by simpa using hab
-      rw [evalFor_congr hs]
+      rw [evalFor_congr_vis hs]
       obtain ⟨tv, tb⟩ := term_leaf hwf hfm
-      refine ⟨tv, htt, ?_⟩
+      refine ⟨tv, htt, ?_, fun hne => absurd rfl hne⟩
       intro hB _
       obtain ⟨hc, hval⟩ := tb hB
       by_cases hp : ply = 0
       · exact Or.inl ⟨hp, rfl⟩
       · right
         rw [VM.pv_leaf]
-        exact ⟨⟨hnone hls' hab' hp, hc⟩, hval⟩
+        exact ⟨hwf, hfm, ⟨hnone hls' hab' hp, hc⟩, hval⟩
     · split
       · rename_i hnb
         have hnb' : ¬ Big acc.bestValue := by
           rw [← big_iff]; simpa using hnb
         have hsm := hacc.valBest.small_of_not_big hnb'
-        exact ⟨hacc.valBest, htt.insert _ _ ⟨hsm, hsm⟩, fun hB => absurd hB hnb'⟩
-      · exact ⟨hacc.valBest, htt, fun hB ho => Or.inr (hacc.mate hB ho)⟩
+        exact ⟨hacc.valBest, htt.insert _ _ ⟨hsm, hsm⟩, fun hB => absurd hB hnb', hacc.gt⟩
+      · exact ⟨hacc.valBest, htt, fun hB ho => Or.inr (hacc.mate hB ho), hacc.gt⟩
 
 theorem negamax_mate : ∀ fuel, NMate fuel := by
   intro fuel
@@ -471,27 +480,32 @@ theorem negamax_mate : ∀ fuel, NMate fuel := by
   | zero =>
     intro s ply maxPly a b isPv h ph _ _ htt _ _
     rw [negamax_zero]
-    exact ⟨Or.inl small_zero, htt, fun hB => absurd hB small_zero.not_big⟩
+    exact ⟨Or.inl small_zero, htt, fun hB => absurd hB small_zero.not_big, fun _ _ hne => absurd rfl hne⟩
   | succ fuel ih =>
     intro s ply maxPly a b isPv h ph hinv hfm htt hva hvb
     have he : (enter s h).board = s.board := enter_board s h
     have hett : (enter s h).tt = s.tt := enter_tt s h
     have hwf := hinv.wf
-    have hsmall0 : Val (0 : Int) ∧ TTSmall (enter s h).tt ∧ (Big (0 : Int) → Outside 0 a b → MateRes s.board ply (VM.leaf 0)) :=
-      ⟨Or.inl small_zero, by rw [hett]; exact htt, fun hB => absurd hB small_zero.not_big⟩
+    have hnomv : ∀ v : Int, (∀ e, s.tt.get? h = some e → e.depth < maxPly - ply) → ply ≠ maxPly →
+        (VM.leaf v).mv ≠ none → -16777216 < (VM.leaf v).value := fun _ _ _ hne => absurd rfl hne
     rw [negamax_succ]
     split
     · exact ⟨Or.inl small_zero, by show TTSmall (pollStep s).tt; rw [pollStep_tt]; exact htt,
-        fun hB => absurd hB small_zero.not_big⟩
+        fun hB => absurd hB small_zero.not_big, hnomv 0⟩
     · simp only
       split
-      · exact ⟨Or.inl (small_repValue ply), by rw [hett]; exact htt, fun hB => absurd hB (small_repValue ply).not_big⟩
+      · exact ⟨Or.inl (small_repValue ply), by rw [hett]; exact htt, fun hB => absurd hB (small_repValue ply).not_big,
+          hnomv _⟩
       · split
         · rename_i r x y heq
           obtain ⟨e, hget, rfl⟩ : ∃ e, (enter s h).tt.get? h = some e ∧ r = e.mv := probe_hit (by rw [heq])
           rw [hett] at hget
           have hsm := (htt h e hget).2
-          exact ⟨Or.inl hsm, by rw [hett]; exact htt, fun hB => absurd hB hsm.not_big⟩
+          refine ⟨Or.inl hsm, by rw [hett]; exact htt, fun hB => absurd hB hsm.not_big, ?_⟩
+          intro hfresh _ _
+          have := probe_fresh (entry := (enter s h).tt.get? h) (rem := maxPly - ply) a b (by rw [hett]; exact hfresh)
+          rw [heq] at this
+          cases this
         · rename_i alpha beta heq
           have hentry : ∀ e, (enter s h).tt.get? h = some e → Small e.value := by
             intro e hget; rw [hett] at hget; exact (htt h e hget).1
@@ -499,13 +513,16 @@ theorem negamax_mate : ∀ fuel, NMate fuel := by
           have hvα : Val alpha := hα.elim (fun h => h ▸ hva) Or.inl
           have hvβ : Val beta := hβ.elim (fun h => h ▸ hvb) Or.inl
           split
-          · exact hsmall0
+          · exact ⟨Or.inl small_zero, by rw [hett]; exact htt, fun hB => absurd hB small_zero.not_big, hnomv 0⟩
           · split
-            · unfold horizon
+            · rename_i hpm
+              have hhor : ∀ r : VM, (∀ e, s.tt.get? h = some e → e.depth < maxPly - ply) → ply ≠ maxPly →
+                  r.mv ≠ none → -16777216 < r.value := fun _ _ hne => absurd (by simpa using hpm) hne
+              unfold horizon
               simp only
               split
               · obtain ⟨qv, qb⟩ := quiescence_val fuel (enter s h) alpha beta
-                refine ⟨qv hvα hvβ, by rw [quiescence_tt, hett]; exact htt, ?_⟩
+                refine ⟨qv hvα hvβ, by rw [quiescence_tt, hett]; exact htt, ?_, hhor _⟩
                 intro hB ho
                 exfalso
                 unfold Outside Small Big at *
@@ -514,18 +531,18 @@ theorem negamax_mate : ∀ fuel, NMate fuel := by
                 cases hl : isAnyMoveLegal (enter s h).board (rootBuffer (enter s h) ply) with
                 | true =>
                   have hsm := small_standPat (enter s h).board s.board.turn
-                  exact ⟨Or.inl hsm, by rw [hett]; exact htt, fun hB => absurd hB hsm.not_big⟩
+                  exact ⟨Or.inl hsm, by rw [hett]; exact htt, fun hB => absurd hB hsm.not_big, hhor _⟩
                 | false =>
                   rw [he]
                   obtain ⟨tv, tb⟩ := term_leaf hwf (hfm.mono (Nat.zero_le _))
-                  refine ⟨tv, by rw [hett]; exact htt, ?_⟩
+                  refine ⟨tv, by rw [hett]; exact htt, ?_, hhor _⟩
                   intro hB _
                   obtain ⟨hc, hval⟩ := tb hB
                   by_cases hp : ply = 0
                   · exact Or.inl ⟨hp, rfl⟩
                   · right
                     rw [VM.pv_leaf]
-                    refine ⟨⟨?_, hc⟩, hval⟩
+                    refine ⟨hwf, hfm.mono (Nat.zero_le _), ⟨?_, hc⟩, hval⟩
                     intro m hm
                     rw [rootBuffer_pos _ hp, he] at hl
                     unfold isAnyMoveLegal at hl
@@ -551,6 +568,231 @@ theorem negamax_mate : ∀ fuel, NMate fuel := by
                   refine l4 h1 h2 m (mem_sortMoves.mpr ?_)
                   rw [rootBuffer_pos _ hp]; exact hm)
               rw [he] at hfin
-              exact hfin
+              exact ⟨hfin.1, hfin.2.1, hfin.2.2.1, fun _ _ => hfin.2.2.2⟩
+
+/-! ## from a mating line to the reported distance -/
+
+theorem MateLine.shape {b : Board} {l : List Move} {v : Int} (h : MateLine b l v) :
+    wf (l.foldl make b) = true ∧ Mated (l.foldl make b) ∧
+    (l.foldl make b).fullmove = b.fullmove + (l.length + b.turn) / 2 ∧
+    (l.foldl make b).fullmove < 1048576 ∧
+    (l.length % 2 = 0 → v = -(16777216 - ((l.foldl make b).fullmove : Int))) ∧
+    (l.length % 2 = 1 → v = 16777216 - ((l.foldl make b).fullmove : Int)) := by
+  induction l generalizing b v with
+  | nil =>
+    obtain ⟨hwf, hfm, hM, hv⟩ := h
+    have ht := (wf_turn_fm hwf).1
+    rw [EvalFlip.winScore_val] at hv
+    unfold FmOK at hfm
+    refine ⟨hwf, hM, ?_, ?_, fun _ => hv, fun h => ?_⟩
+    · show b.fullmove = b.fullmove + (0 + b.turn) / 2; omega
+    · show b.fullmove < 1048576; omega
+    · simp at h
+  | cons m ms ih =>
+    obtain ⟨hwf, -, -, hrest⟩ := h
+    have ht := (wf_turn_fm hwf).1
+    obtain ⟨i0, i1, i2, i3, i4, i5⟩ := ih hrest
+    rw [make_fullmove, make_turn] at i2
+    rw [List.foldl_cons, List.length_cons]
+    refine ⟨i0, i1, by omega, i3, fun h => ?_, fun h => ?_⟩
+    · have := i5 (by omega); omega
+    · have := i4 (by omega); omega
+
+/-- the reported line: `2N - 1` plies, legal, ending in a (well-formed) position whose mover is checkmated -/
+def MatePv (b : Board) (l : List Move) (N : Int) : Prop :=
+  (l.length : Int) = 2 * N - 1 ∧ LegalLine b l ∧ wf (l.foldl make b) = true ∧ Mated (l.foldl make b)
+
+theorem foldl_make_congr {b b' : Board} (h : vis b = vis b') (l : List Move) : vis (l.foldl make b) = vis (l.foldl make b') := by
+  induction l generalizing b b' with
+  | nil => exact h
+  | cons m ms ih => exact ih (make_congr h m)
+
+theorem MatePv.congr {b b' : Board} (h : vis b = vis b') {l : List Move} {N : Int} (hm : MatePv b l N) : MatePv b' l N :=
+  ⟨hm.1, hm.2.1.congr h l, by rw [← wf_congr (foldl_make_congr h l)]; exact hm.2.2.1,
+    hm.2.2.2.congr (foldl_make_congr h l)⟩
+
+theorem scoreFromValue_congr_vis {b b' : Board} (h : vis b = vis b') (v : Int) : scoreFromValue v b = scoreFromValue v b' := by
+  unfold scoreFromValue
+  rw [turn_congr h, fullmove_congr h]
+
+theorem scoreFromValue_mid {v : Int} (b : Board) (h1 : ¬ v > 8388608) (h2 : ¬ v < -8388608) : scoreFromValue v b = .cp v := by
+  unfold scoreFromValue
+  rw [if_neg]
+  rw [EvalFlip.winScore_val]
+  omega
+
+/-- **one iteration**: a root search that returns a move and whose value is reported as `mate N`, `N > 0`, returns a PV of
+`2N - 1` plies that is a legal line ending in checkmate -/
+theorem rootSearch_mate (s : St) (d : Nat) (hinv : Inv (fuelFor d) s.board) (hfm : FmOK (fuelFor d) s.board)
+    (htt : TTSmall s.tt) (hfresh : TTRootFresh s (Zobrist.hash s.board) d) (hd : 0 < d) :
+    TTSmall (rootSearch s d).2.tt ∧
+    ((rootSearch s d).1.mv ≠ none → ∀ N : Int, N > 0 → scoreFromValue (rootSearch s d).1.value s.board = .mate N →
+      MatePv s.board (rootSearch s d).1.pv N) := by
+  obtain ⟨hval, htt', hmate, hgt⟩ := negamax_mate (fuelFor d) s 0 d lossScore Gen.winScore s.pv.isSome
+    (Zobrist.hash s.board) (Zobrist.pawnHash s.board) hinv hfm htt val_loss val_win
+  change Val (rootSearch s d).1.value at hval
+  change TTSmall (rootSearch s d).2.tt at htt'
+  change Big (rootSearch s d).1.value → Outside (rootSearch s d).1.value lossScore Gen.winScore →
+    MateRes s.board 0 (rootSearch s d).1 at hmate
+  change _ → _ → (rootSearch s d).1.mv ≠ none → -16777216 < (rootSearch s d).1.value at hgt
+  generalize rootSearch s d = r at *
+  refine ⟨htt', fun hmv N hN hsc => ?_⟩
+  have hgt' := hgt (by intro e he; have := hfresh e he; omega) (by omega) hmv
+  obtain ⟨ht, hf1⟩ := wf_turn_fm hinv.wf
+  have hmateline : Big r.1.value → r.1.value ≠ 16777216 → MateLine s.board r.1.pv r.1.value := by
+    intro hB hne
+    have ho : Outside r.1.value lossScore Gen.winScore := by
+      rw [SpecSearch.lossScore_val, EvalFlip.winScore_val]
+      exact ⟨by omega, hne, hne, by omega⟩
+    rcases hmate hB ho with ⟨-, h0⟩ | h0
+    · exact absurd h0 hmv
+    · exact h0
+  by_cases h1 : r.1.value > 8388608
+  · have hB : Big r.1.value := hval.elim (fun h => by unfold Small at h; omega) id
+    rw [EvalFlip.scoreFromValue_pos _ _ (by rw [EvalFlip.winScore_val]; omega), EvalFlip.winScore_val] at hsc
+    injection hsc with hN'
+    have hne : r.1.value ≠ 16777216 := by
+      intro h
+      split at hN' <;> omega
+    obtain ⟨hwe, hM, hfe, hlt, heven, hodd⟩ := (hmateline hB hne).shape
+    refine ⟨?_, (hmateline hB hne).legal, hwe, hM⟩
+    rcases Nat.mod_two_eq_zero_or_one r.1.pv.length with hp | hp
+    · have := heven hp; omega
+    · have := hodd hp
+      rcases (by omega : s.board.turn = 0 ∨ s.board.turn = 1) with h0 | h0
+      · rw [h0] at hN' hfe
+        simp only [beq_self_eq_true, if_true] at hN'
+        omega
+      · rw [h0] at hN' hfe
+        simp only [Nat.reduceBEq, Bool.false_eq_true, if_false] at hN'
+        omega
+  · by_cases h2 : r.1.value < -8388608
+    · exfalso
+      have hB : Big r.1.value := hval.elim (fun h => by unfold Small at h; omega) id
+      rw [EvalFlip.scoreFromValue_neg _ _ (by rw [EvalFlip.winScore_val]; omega), EvalFlip.winScore_val] at hsc
+      injection hsc with hN'
+      obtain ⟨-, -, hfe, hlt, heven, hodd⟩ := (hmateline hB (by omega)).shape
+      rcases Nat.mod_two_eq_zero_or_one r.1.pv.length with hp | hp
+      · have := heven hp; omega
+      · have := hodd hp; omega
+    · rw [scoreFromValue_mid _ h1 h2] at hsc
+      cases hsc
+
+/-! ## iterative deepening and `go` -/
+
+/-- an info that reports `mate N` with `N > 0` together with a PV reports a mating line of `2N - 1` plies -/
+def MateOK (root : Board) : Out → Prop
+  | .info _ _ _ (some (.mate N)) (some l) => N > 0 → MatePv root l N
+  | _ => True
+
+/-- the (score, PV) pair `best_move` keeps from the last completed iteration -/
+def PairOK (root : Board) (sc : Option Score) (u : Option (List Move)) : Prop :=
+  ∀ N l, sc = some (.mate N) → u = some l → N > 0 → MatePv root l N
+
+theorem MateOK_poll (root : Board) {o : Out} (h : IsPollInfo o) : MateOK root o := by
+  cases o with
+  | info d t n sc pv =>
+    cases sc with
+    | none => trivial
+    | some x => cases d <;> exact h.elim
+  | bestMove _ _ => trivial
+
+theorem MateOK_of_pair {root : Board} {sc : Option Score} {u : Option (List Move)} (h : PairOK root sc u)
+    (d t : Option Nat) (n : Nat) : MateOK root (.info d t n sc u) := by
+  cases sc with
+  | none => trivial
+  | some x =>
+    cases x with
+    | cp v => trivial
+    | mate N =>
+      cases u with
+      | none => trivial
+      | some l => exact h N l rfl rfl
+
+theorem deepen_mate (root : Board) :
+    ∀ (n : Nat) (s : St) (d mt : Nat) (best : Option VM) (u : Option (List Move)) (sc : Option Score),
+    Inv (fuelFor d + n) root → FmOK (fuelFor d + n) root → vis s.board = vis root → 1 ≤ d → TTBound (d - 1) s →
+    TTSmall s.tt → PairOK root sc u →
+    ∃ news, (deepen n s d mt best u sc).2.out = news ++ s.out ∧ ∀ o ∈ news, MateOK root o := by
+  intro n
+  induction n with
+  | zero => intro s d mt best u sc _ _ _ _ _ _ _; rw [deepen_zero]; exact ⟨[], rfl, by simp⟩
+  | succ n ih =>
+    intro s d mt best u sc hinv0 hfm0 hs hd hbound htt hpair
+    have hinv : Inv (fuelFor d + (n + 1)) s.board := Inv_congr hs.symm hinv0
+    have hwf : Inv (fuelFor d) s.board := Inv_mono (Nat.le_add_right _ _) hinv
+    have hfm : FmOK (fuelFor d) s.board := (hfm0.mono (Nat.le_add_right _ _)).congr hs.symm
+    have hfresh : TTRootFresh s (Zobrist.hash s.board) d := by
+      intro e he
+      have := hbound _ e he
+      omega
+    obtain ⟨htt', hm⟩ := rootSearch_mate s d hwf hfm htt hfresh (by omega)
+    have hb : vis (rootSearch s d).2.board = vis s.board := rootSearch_board boardLaws s d hwf
+    obtain ⟨polls, hp, hpoll⟩ := rootSearch_rel (pollOnly_stepRel d) s
+    have hout : (iterState (rootSearch s d) d sc u).out = (iterInfo (rootSearch s d) d sc u :: polls) ++ s.out := by
+      rw [iterState_out, hp]; rfl
+    have hpair' : ¬ iterAborted (rootSearch s d) = true →
+        PairOK root (some (scoreFromValue (rootSearch s d).1.value (rootSearch s d).2.board)) (some (rootSearch s d).1.pv) := by
+      intro hna N l h1 h2 hN
+      cases h2
+      have hsc : scoreFromValue (rootSearch s d).1.value s.board = .mate N := by
+        rw [← scoreFromValue_congr_vis hb]; exact Option.some.inj h1
+      have hmv : (rootSearch s d).1.mv ≠ none := by
+        intro h0
+        apply hna
+        unfold iterAborted
+        rw [h0]
+        simp
+      exact (hm hmv N hN hsc).congr hs
+    have hinfo : MateOK root (iterInfo (rootSearch s d) d sc u) := by
+      unfold iterInfo
+      split
+      · exact MateOK_of_pair hpair _ _ _
+      · rename_i hna
+        exact MateOK_of_pair (hpair' hna) _ _ _
+    have hone : ∀ o ∈ iterInfo (rootSearch s d) d sc u :: polls, MateOK root o := by
+      intro o ho
+      rcases List.mem_cons.mp ho with rfl | ho
+      · exact hinfo
+      · exact MateOK_poll root (hpoll o ho)
+    rw [deepen_succ]
+    simp only
+    split
+    · exact ⟨_, hout, hone⟩
+    · rename_i hna
+      split
+      · exact ⟨_, hout, hone⟩
+      · obtain ⟨p, o, he⟩ := iterState_eq (rootSearch s d) d sc u
+        have hbound' : TTBound d (rootSearch s d).2 :=
+          rootSearch_rel (ttRel_stepRel (Nat.le_refl d)) s (fun h e he => Nat.le_trans (hbound h e he) (Nat.sub_le _ _))
+        obtain ⟨news, hn, hok⟩ := ih (iterState (rootSearch s d) d sc u) (d + 1) mt (some (rootSearch s d).1)
+          (some (rootSearch s d).1.pv) (some (scoreFromValue (rootSearch s d).1.value (rootSearch s d).2.board))
+          (Inv_mono (by unfold fuelFor; omega) hinv0) (hfm0.mono (by unfold fuelFor; omega))
+          (by rw [he]; exact hb.trans hs) (by omega) (by rw [he]; exact hbound') (by rw [he]; exact htt') (hpair' hna)
+        refine ⟨news ++ (iterInfo (rootSearch s d) d sc u :: polls), by rw [hn, hout, List.append_assoc], ?_⟩
+        intro o ho
+        rcases List.mem_append.mp ho with h | h
+        · exact hok o h
+        · exact hone o h
+
+/-- **every info of a `go` that reports a positive mate distance with a PV reports a mating line of that length** -/
+theorem goCmd_mate_ok (s : St) (g : GoParams) (maxIter : Nat) (hinv : Inv (goBudget maxIter) s.board)
+    (hfm : FmOK (goBudget maxIter) s.board) (o : Out) (ho : o ∈ (goCmd s g maxIter).out) (hnew : o ∉ s.out) :
+    MateOK s.board o := by
+  obtain ⟨k, p, g', hprep⟩ := goPrep_eq s g
+  have htt0 : TTSmall (goPrep s g).tt := by rw [hprep]; exact TTSmall.empty
+  have hle := goIters_le g maxIter
+  obtain ⟨news, hn, hok⟩ := deepen_mate s.board (goIters g maxIter) (goPrep s g) 1 (goMaxThinking (goPrep s g))
+    none none none (Inv_mono (by unfold fuelFor goBudget; omega) hinv) (hfm.mono (by unfold fuelFor goBudget; omega))
+    (by rw [goPrep_board]) (Nat.le_refl 1) (goPrep_ttBound s g) htt0 (by intro N l h; cases h)
+  rw [goCmd_eq] at ho
+  change o ∈ _ :: (goDeepen s g maxIter).2.out at ho
+  rcases List.mem_cons.mp ho with rfl | ho
+  · trivial
+  · unfold goDeepen at ho
+    rw [hn, goPrep_out] at ho
+    rcases List.mem_append.mp ho with h | h
+    · exact hok o h
+    · exact absurd h hnew
 
 end Inkayaku.Search
